@@ -1,5 +1,6 @@
 import MosdnsVerif.Base.Hex
 import MosdnsVerif.Model.C17
+import MosdnsVerif.Gen.Facts
 
 namespace Driver.C17
 
@@ -15,6 +16,26 @@ def handle : List String → String
         | .ok r => if r == tcpReply then "tcp" else "udp"
         | .error _ => "err"
       what ++ " " ++ (if obs == "1" then Hex.showBool used else "-")
+    | none => "bad-op"
+  -- `route <first 4 bytes of the UDP reply, hex> <ans|fail> <Opt.Socks5 set 0|1>`: the server is endpoint 1,
+  -- the proxy endpoint 2 (never relays); how the two halves dial is read from the source.
+  | ["route", hdr, mode, s5] =>
+    match Hex.decode hdr with
+    | some udpReply =>
+      let tcpReply : Bytes := [0x54]
+      let cfg : Model.C17.DialCfg := ⟨1, if s5 == "1" then some 2 else none⟩
+      let udpNet : Nat → Bytes → Except Nat Bytes := fun e _ => if e == 1 then .ok udpReply else .error 2
+      let tcpNet : Nat → Bytes → Except Nat Bytes := fun e _ => if e == 1 && mode == "ans" then .ok tcpReply else .error 1
+      match Model.C17.exchangeRouted Model.C17.exchange (.ofFact Gen.Facts.c17UdpDialVia) (.ofFact Gen.Facts.c17TcpDialVia)
+          cfg udpNet tcpNet [0] with
+      | some (res, _, at_) =>
+        let what := match res with
+          | .ok r => if r == tcpReply then "tcp" else "udp"
+          | .error _ => "err"
+        let wher := match at_ with
+          | none => "none" | some 1 => "server" | some 2 => "proxy" | some _ => "other"
+        what ++ " " ++ wher
+      | none => "unknown-dial-shape"
     | none => "bad-op"
   | _ => "bad-op"
 
